@@ -475,3 +475,82 @@ def r14_2_decoders_restore_every_field(ctx: Ctx) -> RuleResult:
             else:
                 rr.ok({"decoder": f.qual, "constructor": c.qual, "parameters": len(c.value_params)})
     return rr
+
+
+@rule("C14")
+def r14_9_field_correspondence(ctx: Ctx) -> RuleResult:
+    """R14.1 compares kinds of primitives only.  Here each written value is labelled with the field it comes from and each value
+    read with the field of the decoded object it ends up in (through the constructors' own parameter->field stores, with
+    argument-order normalisation in a constructor decided from the literals the decoder passes)."""
+    from ..codec import codec_pairs, io_param
+    from ..codecpaths import correspond
+
+    rr = RuleResult("R14.9", "the k-th value a composite writer emits comes from the field that the k-th value its reader consumes is stored in (no two same-kind fields crossed over)", min_instances=35)
+    skipped = []
+    for c, w, r in codec_pairs(ctx):
+        for st, msg, d in correspond(ctx, c, w, r, io_param(w, "w"), io_param(r, "r")):
+            if st == "skip":
+                skipped.append(f"{c.name}: {msg[:150]}")
+                continue
+            rr.inst()
+            if st == "ok":
+                rr.ok({"class": c.name, "site": msg})
+            else:
+                rr.fail(c.qual, msg, ctx.loc(r, d.get("node")), **{k: v for k, v in d.items() if k != "node"})
+    rr.notes.extend("not compared: " + s for s in skipped)
+    return rr
+
+
+@rule("C14")
+def r14_10_flag_bytes(ctx: Ctx) -> RuleResult:
+    """Packed flag bytes: every OR-ed component of the byte a composite writer emits is determined by exactly one field (its own
+    guards included - a bit that is only set when *another* field is non-zero loses data for the remaining combinations), and sits at
+    the bit position from which the reader restores that same field."""
+    from ..codec import codec_pairs, io_param
+    from ..codecpaths import ctor_param_fields, io_sites, norm_name, reader_components, reader_paths, site_kind, writer_components
+    from ..kit import bind_args
+
+    rr = RuleResult("R14.10", "packed flag bytes: each component is a function of one field only and is restored from the same bit position", min_instances=4)
+    for c, w, r in codec_pairs(ctx):
+        wio, rio = io_param(w, "w"), io_param(r, "r")
+        wsites, rsites = io_sites(w, wio), io_sites(r, rio)
+        if [site_kind(x) for x in wsites] != [site_kind(x) for x in rsites]:
+            continue
+        rp, _ = reader_paths(ctx, r, rio)
+        for k, ws in enumerate(wsites):
+            if site_kind(ws) != "byte":
+                continue
+            comps = writer_components(ctx, w, wio, ws)
+            if comps is None:
+                continue
+            # reader: low bit -> fields, through the constructor call that is returned
+            rc = reader_components(ctx, r, rio, rsites[k], rp[k][1])
+            bit_fields: dict[int, set[str]] = {}
+            for n in ast.walk(r.node):
+                if isinstance(n, ast.Return) and isinstance(n.value, ast.Call):
+                    tg, how = ctx.R.callees(n.value, r, count=False)
+                    tg = [t for t in tg if t.name != "__new__"]
+                    if not tg:
+                        continue
+                    pf = ctor_param_fields(ctx, tg[0])
+                    for p, arg in bind_args(n.value, tg[0]).items():
+                        for low, locs in rc.items():
+                            if any(isinstance(x, ast.Name) and x.id in locs for x in ast.walk(arg)):
+                                bit_fields.setdefault(low, set()).update(pf.get(p, set()))
+            for comp in comps:
+                rr.inst()
+                det = {p[0] for p in comp["fields"] | comp["guard_fields"] if p}
+                if len(det) != 1:
+                    extra = sorted({p[0] for p in comp["guard_fields"] if p} - {p[0] for p in comp["fields"] if p})
+                    rr.fail(w.qual, f"flag component `{comp['text']}` of the packed byte depends on {sorted(det)}" + (f" (set only under a test of {extra})" if extra else "") + ": the reader restores one field from it unconditionally, so the other combinations do not survive a round trip", ctx.loc(w, comp["node"]))
+                    continue
+                fld = next(iter(det))
+                if comp["low"] is None:
+                    rr.fail(w.qual, f"flag component `{comp['text']}`: bit position not recognised", ctx.loc(w, comp["node"]))
+                    continue
+                back = bit_fields.get(comp["low"], set())
+                if fld not in back:
+                    rr.fail(w.qual, f"flag component `{comp['text']}` puts `{fld}` at bit {comp['low']}, but the reader restores {sorted(back) or 'nothing'} from that bit", ctx.loc(w, comp["node"]))
+                else:
+                    rr.ok({"class": c.name, "field": fld, "bit": comp["low"]})
+    return rr
